@@ -2,8 +2,8 @@
 
 Static: vt/gen/c06_api.py regenerates coq/C06/Gen_api.v from the snapshot (attribute names used by the cleaner vs
 names defined by the node classes); C06_api_closed / C06_cleaner_methods_exist re-checked by vm_compute.
-Proof: termination of fix_paragraphs and of the remove_breaking_returns loop on the heap model (explicit measures);
-fix_nesting only partially (see coq/C06/Properties.v).
+Proof: termination of fix_paragraphs, of the remove_breaking_returns loop (candidates computed by a model of the four
+navigation functions) and of fix_nesting (labelled trees, any forbidden/invisible table) with explicit measures.
 Search: each pass called DIRECTLY (not through the catch-all) in the documented order on trees of the adversarial and
 the well-formed input space, under a time limit; exception or time-out = failing input; clean_all's error reports too."""
 import json
@@ -27,18 +27,24 @@ def build():
 def check(run):
     run.rule = c05.check.__doc__ or ""
     run.rule = ("space 1: %d seeds (one per trigger: region_list, overflow:auto, absolute positioning, named refs, noprint, wide/"
-                "nested/single-column tables, ...) + grammar-based adversarial wikitext with mutations; space 2: well-formed documents. "
-                "Each of the 58 entries of cleaner_methods is called directly, in order, under a wall-clock limit. distinct = distinct "
-                "wikitext; non-trivial = at least one pass changed the tree" % len(G.SEEDS))
+                "nested/single-column tables, ...; trigger x css unit exhaustively: overflow:auto/position on div, span and table with the "
+                "length the pass reads in each of %d units) + grammar-based adversarial wikitext with mutations, whose style attributes "
+                "are drawn from a css grammar (every trigger with every number x unit / keyword / garbage of the length it makes the "
+                "cleaner read, %d length properties, %d keyword properties); space 2: well-formed documents. "
+                "Each of the 58 entries of cleaner_methods is called directly, in order, under a CPU-time limit. distinct = distinct "
+                "wikitext; non-trivial = at least one pass changed the tree" % (len(G.SEEDS), len(G.UNITS), len(G.LENGTH_PROPS), len(G.KEYWORD_PROPS)))
     run.trusted = c05.TRUSTED + ["vt/gen/c06_api.py (Python ast): which attribute reads count as obligations (Load/Del on non-module "
                                  "receivers; getattr/hasattr with literal names are guarded reads and are not), which sources define names",
                                  "the fixed allow-list of builtin-type attributes in vt/gen/c06_api.py",
                                  "CPU-time limit (ITIMER_VIRTUAL; 5 s quick / 10 s thorough per pass call) as the meaning of 'bounded time'"]
     run.assumptions = ["name-based attribute check: a name defined by ANY node class / mixin counts as defined for every receiver",
-                       "C06_breaking_returns_terminates is parametric in the candidate computation (first/last leaf, next/previous): "
-                       "its hypothesis (a BreakingReturn candidate is an attached node of the document) is not derived from a model of "
-                       "those four navigation functions",
-                       "exceptions other than missing attributes and termination of fix_nesting are decided by the search only"]
+                       "C06_breaking_returns_terminates_real: is_block_node and 'display text is blank' are abstract; BreakingReturns are "
+                       "assumed childless (a BreakingReturn with a block descendant makes the model loop spin: C06_cand_detached_refuted)",
+                       "C06_fix_nesting_terminates: 'loose' strictness only; labelled trees, deepcopy = fresh identities; the heap-level "
+                       "call sequence copy/remove_child/replace_child is not replayed cell by cell",
+                       "nesting deeper than 40 is outside the quantifier (C01's input space): RecursionError on deeper documents is not "
+                       "reported here (C05 checks that the tree stays proper when that happens)",
+                       "exceptions other than missing attributes are decided by the search only"]
     src = core.snapshot()
     info = {}
 
